@@ -18,10 +18,27 @@
 use std::collections::Bound;
 use std::ops::RangeBounds;
 
+use crate::codec::SketchSlice;
 use crate::error::Error;
 
 pub(crate) fn insufficient_data(tag: &'static str) -> impl FnOnce(std::io::Error) -> Error {
     move |_| Error::insufficient_data(tag)
+}
+
+/// Checks that `count` items of `item_size` bytes are still available in `cursor`.
+///
+/// To be called before allocating space for `count` items, so that a corrupted count
+/// field cannot make a reader allocate more than the image can possibly fill.
+pub(crate) fn ensure_remaining(
+    cursor: &SketchSlice<'_>,
+    count: usize,
+    item_size: usize,
+    tag: &'static str,
+) -> Result<(), Error> {
+    match count.checked_mul(item_size) {
+        Some(needed) if needed <= cursor.remaining() => Ok(()),
+        _ => Err(Error::insufficient_data(tag)),
+    }
 }
 
 pub(crate) fn ensure_serial_version_is(expected: u8, actual: u8) -> Result<(), Error> {
